@@ -208,7 +208,7 @@ func c01Configs(r *core.Run, cat []catRoute, k int, paths []string, label string
 		idx := make([]int, k)
 		rs := make([]catRoute, k)
 		for c := w; c < total; c += nw {
-			if c%64 == 0 && r.Expired() {
+			if (c/nw)%8 == 0 && r.Expired() {
 				return
 			}
 			x := c
